@@ -277,6 +277,17 @@ class Api:
     def f_PyErr_SetNone(self, a, st, k):
         return k(None, st.with_exc(self.exc_code(a[0])))
 
+    # ---- recursion budget (ghost `recursion_depth`: Enter/Leave pairs open around the current point) -------
+    def f_Py_EnterRecursiveCall(self, a, st, k):
+        d = st.ghost.get("recursion_depth", 0)
+        st = st.log(("enter-recursive-call",))
+        return k(z3.IntVal(0), st.gset("recursion_depth", d + 1)) + k(z3.IntVal(-1), st.with_exc(EXC["RuntimeError"]))
+
+    def f_Py_LeaveRecursiveCall(self, a, st, k):
+        d = st.ghost.get("recursion_depth", 0)
+        st = self.cx.require(st, z3.BoolVal(d >= 1), "valid-deref:Py_LeaveRecursiveCall-without-Enter")
+        return k(None, st.log(("leave-recursive-call",)).gset("recursion_depth", max(d - 1, 0)))
+
     # ---- calls into Python ---------------------------------------------------------------------------------
     def f_PyObject_CallMethod(self, a, st, k):
         # a NULL receiver is not undefined behaviour: CPython reports SystemError ("null argument to internal routine")
